@@ -20,6 +20,8 @@ import (
 	"testing"
 	"time"
 
+	"github.com/robinbraemer/event"
+
 	"go.minekube.com/gate/pkg/edition/java/config"
 	"go.minekube.com/gate/pkg/edition/java/proxy"
 
@@ -41,6 +43,7 @@ type schedule struct {
 	Prog  map[string]req `json:"prog"`
 	Sched []sstep        `json:"sched"`
 	Ver   int            `json:"ver"`
+	First bool           `json:"first"` // the player's first connection, acknowledgement/JoinGame race forced
 }
 
 var servers = []string{"s1", "s2", "s3"}
@@ -55,8 +58,10 @@ type world struct {
 	player string         // the run's player name
 	expect map[string]int // server -> connections of this player that shall park
 	free   map[string][]string // free run: server -> behaviours for the next connections
+	first  *firstJoin          // armed first-connection run of w.player
 	log    []tracefmt.Rec
 	live   int // attempts started and not ended, from the hook events
+	hooks  []string // names of the switch hooks this run's player hit
 }
 
 func (w *world) add(r tracefmt.Rec) { w.mu.Lock(); w.log = append(w.log, r); w.mu.Unlock() }
@@ -69,8 +74,38 @@ func kvMap(kv []any) map[string]any {
 	return m
 }
 
+// firstJoin drives the player's first connection request from the harness (inside the
+// PlayerChooseInitialServerEvent) and holds the proxy between the FinishedUpdate
+// acknowledgement to the backend and the installation of the next backend handler.
+type firstJoin struct {
+	ctl     *sched.Controller
+	parked  chan struct{} // the proxy reached cfg.acked
+	release chan struct{}
+	done    chan struct{} // the request returned
+	used    bool
+}
+
 // onEvent turns the proxy's switch hooks of this run's player into trace lines.
 func (w *world) onEvent(thread, name string, kv []any) {
+	if name == "cfg.acked" {
+		m := kvMap(kv)
+		w.mu.Lock()
+		f := w.first
+		hold := f != nil && !f.used && m["player"] == w.player
+		if hold {
+			f.used = true
+			w.log = append(w.log, tracefmt.Rec{"ev": "dial", "who": thread, "s": fmt.Sprint(m["server"]), "phase": "acked-not-installed"})
+		}
+		w.mu.Unlock()
+		if hold {
+			close(f.parked)
+			select {
+			case <-f.release:
+			case <-time.After(20 * time.Second):
+			}
+		}
+		return
+	}
 	if !strings.HasPrefix(name, "sw.") {
 		return
 	}
@@ -80,6 +115,7 @@ func (w *world) onEvent(thread, name string, kv []any) {
 	if m["player"] != w.player {
 		return
 	}
+	w.hooks = append(w.hooks, name)
 	srv := func(k string) string {
 		s, _ := m[k].(string)
 		if s == "" {
@@ -215,6 +251,8 @@ type stats struct {
 	Samples    []any          `json:"samples"`
 	Skipped    []string       `json:"skipped"`
 	Slowest    []string       `json:"slowest"`
+	FirstRuns  int            `json:"first_connection_runs"`
+	FirstHeld  int            `json:"first_connection_runs_held_at_ack"`
 	TotalMs    int64          `json:"total_ms"`
 }
 
@@ -252,7 +290,34 @@ func TestSchedules(t *testing.T) {
 		defer sb.Close()
 		w.sbs[n], bs[n] = sb, sb.Backend
 	}
-	r, err := rig.New(rig.Options{Backends: bs, Try: tryList, Mutate: func(c *config.Config) {
+	mgr := event.New()
+	event.Subscribe(mgr, 0, func(e *proxy.PlayerChooseInitialServerEvent) {
+		w.mu.Lock()
+		f := w.first
+		mine := f != nil && e.Player().Username() == w.player
+		w.mu.Unlock()
+		if !mine {
+			return
+		}
+		// the harness makes the player's first connection request itself, through the public API
+		defer close(f.done)
+		defer f.ctl.Adopt("t0")()
+		ctx, cancel := context.WithTimeout(context.Background(), 4*time.Second)
+		defer cancel()
+		w.add(tracefmt.Rec{"ev": "call", "t": "t0", "s": "s1", "api": "connect"})
+		res, err := e.Player().CreateConnectionRequest(w.r.P.Server("s1")).Connect(ctx)
+		status, detail, beh := "fail", "", "accept"
+		switch {
+		case err != nil:
+			detail = "error: " + err.Error()
+		case res.Status() == proxy.SuccessConnectionStatus:
+			status, beh = "success", ""
+		default:
+			detail = fmt.Sprint("status ", res.Status())
+		}
+		w.add(tracefmt.Rec{"ev": "ret", "t": "t0", "status": status, "beh": beh, "detail": detail})
+	})
+	r, err := rig.New(rig.Options{Backends: bs, Try: tryList, EventMgr: mgr, Mutate: func(c *config.Config) {
 		c.FailoverOnUnexpectedServerDisconnect = true
 	}})
 	if err != nil {
@@ -272,7 +337,15 @@ func TestSchedules(t *testing.T) {
 	seed := tracefmt.Seed()
 	for i, sc := range scheds {
 		t0 := time.Now()
-		recs, note, info := runSchedule(w, i, sc, seed)
+		var recs []tracefmt.Rec
+		var note string
+		var info runInfo
+		if sc.First {
+			recs, note, info = runFirstJoin(w, i, sc, seed)
+			st.FirstRuns++
+		} else {
+			recs, note, info = runSchedule(w, i, sc, seed)
+		}
 		if d := time.Since(t0); d > 1500*time.Millisecond && len(st.Slowest) < 12 {
 			st.Slowest = append(st.Slowest, fmt.Sprintf("schedule %d: %v", i, d.Round(time.Millisecond)))
 		}
@@ -290,6 +363,9 @@ func TestSchedules(t *testing.T) {
 		}
 		if info.overlap {
 			st.Overlaps++
+		}
+		if info.firstHeld {
+			st.FirstHeld++
 		}
 		for _, g := range info.gates {
 			st.Gates[g]++
@@ -312,7 +388,7 @@ func TestSchedules(t *testing.T) {
 }
 
 type runInfo struct {
-	diverged, unfinished, overlap bool
+	diverged, unfinished, overlap, firstHeld bool
 	gates                         []string
 }
 
@@ -320,7 +396,7 @@ func runSchedule(w *world, idx int, sc schedule, seed int64) (recs []tracefmt.Re
 	r := w.r
 	name := fmt.Sprintf("w%d_%d", seed%1000, idx)
 	w.mu.Lock()
-	w.player, w.log, w.live = name, nil, 0
+	w.player, w.log, w.live, w.hooks = name, nil, 0, nil
 	for k := range w.expect {
 		delete(w.expect, k)
 	}
@@ -640,10 +716,91 @@ func runSchedule(w *world, idx int, sc schedule, seed int64) (recs []tracefmt.Re
 		// about termination, so this is counted, not judged; there is no quiescent point to observe
 		info.unfinished = true
 	}
-	for _, e := range ctl.Log {
-		if i := strings.IndexByte(e, '@'); i >= 0 && strings.HasPrefix(e[i+1:], "sw.") {
-			info.gates = append(info.gates, e[i+1:])
+	w.mu.Lock()
+	info.gates = append(info.gates, w.hooks...)
+	recs = append([]tracefmt.Rec(nil), w.log...)
+	w.mu.Unlock()
+	return recs, "", info
+}
+
+// runFirstJoin: a 1.20.2+ player's first connection request, made by the harness inside the
+// choose-initial-server event. The proxy is held right after it has written the FinishedUpdate
+// acknowledgement to the backend; the fake backend answers that with JoinGame at once; the hold
+// ends when the client has seen JoinGame (the proxy handled it before installing the handler
+// that waits for it) or after a grace period (the proxy does not read ahead).
+func runFirstJoin(w *world, idx int, sc schedule, seed int64) (recs []tracefmt.Rec, note string, info runInfo) {
+	r := w.r
+	name := fmt.Sprintf("w%d_%d", seed%1000, idx)
+	ctl := sched.New(nil, "no.such.gate") // events only: nothing parks
+	ctl.OnEvent = w.onEvent
+	f := &firstJoin{ctl: ctl, parked: make(chan struct{}), release: make(chan struct{}), done: make(chan struct{})}
+	w.mu.Lock()
+	w.player, w.log, w.live, w.first = name, nil, 0, f
+	for k := range w.expect {
+		delete(w.expect, k)
+	}
+	for k := range w.free {
+		delete(w.free, k)
+	}
+	w.log = append(w.log, tracefmt.Rec{"ev": "reset", "cfg": sc.Ver >= rig.P1_20_2, "init": "none", "fallbacks": tryList, "ver": sc.Ver, "n": idx, "first": true})
+	w.mu.Unlock()
+	ctl.Install()
+	defer ctl.Uninstall()
+	c, err := r.NewClient(sc.Ver)
+	if err != nil {
+		return nil, "dial: " + err.Error(), info
+	}
+	defer func() {
+		c.Close()
+		rig.WaitFor(10*time.Second, func() bool { return r.P.PlayerByName(name) == nil })
+		w.mu.Lock()
+		w.player, w.first = "", nil
+		w.mu.Unlock()
+	}()
+	c.Timeout = 30 * time.Second
+	joined := make(chan error, 1)
+	go func() { joined <- c.JoinFullyAny("localhost", name) }()
+	var jerr error
+	gotJoin := false
+	select {
+	case <-f.parked:
+		info.firstHeld = true
+		select {
+		case jerr = <-joined: // the client has JoinGame although the next handler is not installed yet
+			gotJoin = true
+		case <-time.After(1500 * time.Millisecond):
 		}
+		close(f.release)
+	case jerr = <-joined:
+		gotJoin = true
+		close(f.release)
+	case <-time.After(20 * time.Second):
+		close(f.release)
+		return nil, "the first connection never reached the acknowledgement", info
+	}
+	select {
+	case <-f.done:
+	case <-time.After(12 * time.Second):
+		info.unfinished = true
+	}
+	if !gotJoin {
+		select {
+		case jerr = <-joined:
+		case <-time.After(20 * time.Second):
+			return nil, "client never saw JoinGame", info
+		}
+	}
+	if jerr != nil {
+		return nil, "join: " + jerr.Error(), info
+	}
+	ac := c.Auto()
+	defer ac.Wait(5 * time.Second)
+	pl := r.P.PlayerByName(name)
+	if pl == nil {
+		return nil, "player not registered", info
+	}
+	if !info.unfinished {
+		w.add(w.quiesce(pl, ac, 8*time.Second))
 	}
 	w.mu.Lock()
 	recs = append([]tracefmt.Rec(nil), w.log...)
